@@ -54,6 +54,9 @@ func runC23(c *eng.Ctx) {
 			a, b := strings.Join(group(es[0]), " | "), strings.Join(group(ds[0]), " | ")
 			c.Check("R1", "tsdb:snapshot series record", "encoder and decoder group the chunk encodings into the same cases", a == b, p.Pos(ds[0].Stmt.Pos()), "encoder: "+a+" ; decoder: "+b)
 		}
+		pk := []string{"tsdb", "tsdb/record", "tsdb/tombstones"}
+		c.Codec("R1", "tsdb:memSeries.encodeToSnapshotRecord", "tsdb:decodeSeriesFromChunkSnapshot", pk)
+		c.Codec("R1", "tsdb:encodeTombstonesToSnapshotRecord", "tsdb:decodeTombstonesSnapshotRecord", pk)
 		c.CallersSubset("R1", "tsdb:memSeries.encodeToSnapshotRecord", 1, "tsdb:Head.ChunkSnapshot")
 		c.CallersSubset("R1", "tsdb:decodeSeriesFromChunkSnapshot", 1, "tsdb:Head.loadChunkSnapshot")
 	}
